@@ -1,0 +1,41 @@
+//go:build verif
+
+// Package verifhook provides yield points for the verification harness (build tag "verif").
+// Unless a Hook is installed, Yield and Skip do nothing.
+package verifhook
+
+import "sync/atomic"
+
+// Hook is implemented by the harness scheduler.
+type Hook interface {
+	// Yield is called at a yield point; it returns when the calling goroutine may continue.
+	Yield(point string, keys ...string)
+	// Skip reports whether the code guarded by point must be skipped.
+	Skip(point string) bool
+}
+
+type holder struct{ h Hook }
+
+var current atomic.Pointer[holder]
+
+// Install sets the active hook (nil removes it).
+func Install(h Hook) {
+	if h == nil {
+		current.Store(nil)
+		return
+	}
+	current.Store(&holder{h: h})
+}
+
+func Yield(point string, keys ...string) {
+	if c := current.Load(); c != nil {
+		c.h.Yield(point, keys...)
+	}
+}
+
+func Skip(point string) bool {
+	if c := current.Load(); c != nil {
+		return c.h.Skip(point)
+	}
+	return false
+}
